@@ -1334,6 +1334,21 @@ func (x *Exec) loopEnv(st *State, head *ssa.BasicBlock) *Env {
 			}
 		}
 	}
+	x.addNamedLocals(e, st)
+	// cells captured/declared: free variables that are pointers to cells are exposed by content
+	for i, fv := range fr.fn.FreeVars {
+		if i < len(fr.bind) {
+			if pt, ok := fv.Type().Underlying().(*types.Pointer); ok && !isStruct(pt.Elem()) && !isArray(pt.Elem()) && fr.bind[i].K == VTerm {
+				e.vars[fv.Name()] = x.loadNoName(st, fr.bind[i], pt.Elem())
+			}
+		}
+	}
+	return e
+}
+
+// addNamedLocals exposes the source-named local values currently defined in the top frame.
+func (x *Exec) addNamedLocals(e *Env, st *State) {
+	fr := st.top()
 	// any named value (phi comments, allocs) currently defined
 	for v, val := range fr.vals {
 		name := ""
@@ -1385,15 +1400,6 @@ func (x *Exec) loopEnv(st *State, head *ssa.BasicBlock) *Env {
 		}
 		e.vars[name] = val
 	}
-	// cells captured/declared: free variables that are pointers to cells are exposed by content
-	for i, fv := range fr.fn.FreeVars {
-		if i < len(fr.bind) {
-			if pt, ok := fv.Type().Underlying().(*types.Pointer); ok && !isStruct(pt.Elem()) && !isArray(pt.Elem()) && fr.bind[i].K == VTerm {
-				e.vars[fv.Name()] = x.loadNoName(st, fr.bind[i], pt.Elem())
-			}
-		}
-	}
-	return e
 }
 
 func (x *Exec) loadNoName(st *State, p Val, elemT types.Type) Val {
